@@ -38,6 +38,11 @@ class Opaque:
         return "Opaque(%s)" % self.what
 
 
+class _ContinueLoop(Exception):
+    def __init__(self, cond):
+        self.cond = cond
+
+
 class Ret(Exception):
     def __init__(self, value):
         self.value = value
@@ -198,6 +203,8 @@ class Env:
             return []
         if isinstance(st, ast.Raise):
             return [(cond, Opaque("raise"))]
+        if isinstance(st, ast.Continue):
+            raise _ContinueLoop(cond)
         if isinstance(st, ast.For):
             return self.exec_for(st, cond)
         if isinstance(st, ast.While):
@@ -241,7 +248,12 @@ class Env:
                 if k in v1 and k in v2 and _same(a, b):
                     merged[k] = a
                 elif k in v1 and k in v2 and _is_expr(a) and _is_expr(b):
-                    merged[k] = sp.Piecewise((a, c), (b, True))
+                    z = _zero_test(c)
+                    if z is not None and _agree_at_zero(_as_expr(a), _as_expr(b), z):
+                        # `if s == 0: X else: Y` with Y = X at s = 0 is Y (a skip of zero terms that only saves work)
+                        merged[k] = b if z[1] else a
+                    else:
+                        merged[k] = sp.Piecewise((a, c), (b, True))
                 elif k in v1 and k in v2 and isinstance(a, tuple) and isinstance(b, tuple) and len(a) == len(b) and all(_is_expr(x) for x in a + b):
                     merged[k] = tuple(sp.Piecewise((x, c), (y, True)) for x, y in zip(a, b))
                 else:
@@ -253,9 +265,18 @@ class Env:
         it = self.ev(st.iter)
         if isinstance(it, (list, tuple)) and len(it) <= 64:
             rets = []
-            for v in it:
+            body_ = _continue_to_else(st.body)
+            for k_, v in enumerate(it):
                 self.assign(st.target, v, st)
-                rets += self.exec_body(st.body, cond)
+                try:
+                    rets += self.exec_body(body_, cond)
+                except _ContinueLoop as c_:
+                    if c_.cond != cond:
+                        raise Unsupported("symx: conditional continue at %s" % self.where(st))
+                # an element updated in place through the loop variable (np.deg2rad(a, out=a), a *= k) is updated in the sequence too
+                if isinstance(it, list) and isinstance(st.target, ast.Name) and st.target.id in self.vars and not _same(self.vars[st.target.id], v) \
+                        and _is_expr(self.vars[st.target.id]):
+                    it[k_] = self.vars[st.target.id]
             return rets
         raise Unsupported("symx: loop over non-literal iterable `%s` at %s" % (norm(st.iter), self.where(st)))
 
@@ -335,6 +356,13 @@ class Env:
             v = self.ev(t.args[0])
             if isinstance(v, Mask):
                 return "mask"
+        if isinstance(t, ast.Call) and isinstance(t.func, ast.Attribute) and t.func.attr == "any" and not t.args:
+            try:
+                v = self.ev(t.func.value)
+            except Unsupported:
+                v = None
+            if isinstance(v, Mask):
+                return "mask"          # `if mask.any():` guards masked updates that are no-ops for an empty mask
         v = self.ev(t)
         if isinstance(v, Mask):
             return v.cond
@@ -538,10 +566,56 @@ class Env:
         if isinstance(e, ast.JoinedStr):
             return Opaque("fstring")
         if isinstance(e, (ast.ListComp, ast.GeneratorExp)):
-            return Opaque("comprehension")
+            r = self._comprehension(e)
+            return r if r is not None else Opaque("comprehension")
         if isinstance(e, ast.Lambda):
             return Opaque("lambda")
         raise Unsupported("symx: expression %s at %s" % (type(e).__name__, self.where(e)))
+
+    def _comprehension(self, e):
+        """list value of a comprehension whose generators run over literal sequences and whose filters are decidable; else None"""
+        saved = dict(self.vars)
+        out = []
+        ok = [True]
+
+        def rec(k):
+            if k == len(e.generators):
+                out.append(self.ev(e.elt))
+                return
+            g = e.generators[k]
+            try:
+                it = self.ev(g.iter)
+            except Unsupported:
+                ok[0] = False
+                return
+            if not isinstance(it, (list, tuple)) or len(it) > 256:
+                ok[0] = False
+                return
+            for v_ in it:
+                try:
+                    self.assign(g.target, v_, e)
+                except Unsupported:
+                    ok[0] = False
+                    return
+                keep = True
+                for cnd in g.ifs:
+                    t_ = self.truth(cnd)
+                    if t_ is True:
+                        continue
+                    if t_ is False:
+                        keep = False
+                        break
+                    ok[0] = False
+                    return
+                if keep:
+                    rec(k + 1)
+                if not ok[0]:
+                    return
+        try:
+            rec(0)
+        finally:
+            self.vars = saved
+        return out if ok[0] else None
 
     def subscript(self, base, idx, e):
         if isinstance(base, Mask):
@@ -648,6 +722,21 @@ class Env:
         if isinstance(op, ast.Mult) and isinstance(b, (list,)) and isinstance(a, (int, sp.Integer)):
             return b * int(a)
         if isinstance(op, ast.Mod) and isinstance(a, str):
+            args_ = b if isinstance(b, tuple) else (b,)
+            conc = []
+            for x in args_:
+                if isinstance(x, str):
+                    conc.append(x)
+                elif isinstance(x, (int, sp.Integer)) and not isinstance(x, bool):
+                    conc.append(int(x))
+                else:
+                    conc = None
+                    break
+            if conc is not None:
+                try:
+                    return a % tuple(conc)
+                except (TypeError, ValueError):
+                    pass
             return Opaque("format")
         if isinstance(a, (tuple, list)) and _is_expr(b):
             return tuple(self.binop(op, x, b, node) for x in a)
@@ -739,6 +828,12 @@ class Env:
                 m, a, b = A(0), A(1), A(2)
                 if isinstance(m, Mask):
                     return sp.Piecewise((_as_expr(a), m.cond), (_as_expr(b), True))
+            if nm in ("minimum", "maximum", "fmin", "fmax") and len(c.args) >= 2 and _is_expr(A(0)) and _is_expr(A(1)):
+                r = (sp.Min if nm in ("minimum", "fmin") else sp.Max)(_as_expr(A(0)), _as_expr(A(1)))
+                out = c.args[2] if len(c.args) >= 3 else kwarg(c, "out")
+                if out is not None:
+                    self.assign(out, r, c)
+                return r
             if nm == "clip":
                 x, lo, hi = A(0), A(1), A(2)
                 r = sp.Function("CLIP")(_as_expr(x), _as_expr(lo), _as_expr(hi))
@@ -786,6 +881,13 @@ class Env:
             if nm in ("diag", "outer", "meshgrid", "linspace", "unique", "argsort", "lexsort", "cumsum", "interp", "trapz", "argmax", "argmin"):
                 return sp.Function(nm.upper())(*[_as_expr(x) for x in A() if _is_expr(x)])
             return Opaque(full or nm)
+        if full == "itertools.product" and c.args:
+            xs = A()
+            rep = kwarg(c, "repeat")
+            if all(isinstance(x, (tuple, list)) for x in xs):
+                import itertools as _it
+                r_ = int(self.ev(rep)) if rep is not None else 1
+                return [tuple(t_) for t_ in _it.product(*xs, repeat=r_)]
         # builtins
         if isinstance(f, ast.Name) and f.id not in self.vars:
             if f.id in ("float", "int") and c.args:
@@ -823,6 +925,25 @@ class Env:
             if f.id == "divmod":
                 a, b = _as_expr(A(0)), _as_expr(A(1))
                 return (sp.floor(a / b), sp.Mod(a, b))
+            if f.id == "product" and c.args:
+                xs = A()
+                rep = kwarg(c, "repeat")
+                if all(isinstance(x, (tuple, list)) for x in xs):
+                    import itertools as _it
+                    r_ = int(self.ev(rep)) if rep is not None else 1
+                    return [tuple(t_) for t_ in _it.product(*xs, repeat=r_)]
+            if f.id == "bool" and len(c.args) == 1:
+                t_ = self.truth(c.args[0])
+                if t_ is True or t_ is False:
+                    return t_
+                if isinstance(t_, sp.Basic):
+                    return Mask(t_)
+            if f.id == "enumerate" and c.args:
+                xs = A(0)
+                st_ = kwarg(c, "start")
+                k0 = self.ev(st_) if st_ is not None else (A(1) if len(c.args) > 1 else 0)
+                if isinstance(xs, (tuple, list)) and isinstance(k0, (int, sp.Integer)):
+                    return [(sp.Integer(int(k0) + i_), x_) for i_, x_ in enumerate(xs)]
             if f.id == "zip":
                 xs = A()
                 if all(isinstance(x, (tuple, list)) for x in xs):
@@ -907,7 +1028,8 @@ class Env:
                 kws = [sp.Function("KW_" + k.arg)(_opaque_arg(self.ev(k.value))) for k in c.keywords
                        if k.arg and (_is_expr(self.ev(k.value)) or isinstance(self.ev(k.value), bool))]
                 return sp.Function(tgt.name)(*(vals + kws))
-            params = [p for p in tgt.params if not p.startswith("*")][1:]
+            is_static = any(isinstance(d_, ast.Name) and d_.id == "staticmethod" for d_ in tgt.node.decorator_list)
+            params = [p for p in tgt.params if not p.startswith("*")][0 if is_static else 1:]
             bind = {}
             for p, a in zip(params, A()):
                 bind[p] = a
@@ -1008,6 +1130,39 @@ def _opaque_arg(x):
     if _is_matrix(x):
         return sp.Function("MAT%dx%d" % (len(x), len(x[0])))(*[_as_expr(e) for row in x for e in row])
     return _as_expr(x)
+
+
+def _zero_test(c):
+    """(symbol, True) for a condition `s == 0`, (symbol, False) for `s != 0`, else None"""
+    if isinstance(c, (sp.Eq, sp.Ne)) and c.rhs == 0 and isinstance(c.lhs, sp.Symbol):
+        return c.lhs, isinstance(c, sp.Eq)
+    if isinstance(c, (sp.Eq, sp.Ne)) and c.lhs == 0 and isinstance(c.rhs, sp.Symbol):
+        return c.rhs, isinstance(c, sp.Eq)
+    return None
+
+
+def _agree_at_zero(a, b, z):
+    """a is the value under the condition, b the value otherwise; z = (symbol, cond_is_eq)"""
+    sym, is_eq = z
+    at_zero, general = (a, b) if is_eq else (b, a)
+    try:
+        return sp.expand(general.subs(sym, 0) - at_zero) == 0
+    except Exception:
+        return False
+
+
+def _continue_to_else(stmts):
+    """`if c: ...; continue` followed by more statements  ==  `if c: ... else: <the rest>` (guard clauses in loop bodies)"""
+    out = []
+    for i, st in enumerate(stmts):
+        if isinstance(st, ast.If) and st.body and isinstance(st.body[-1], ast.Continue) and not st.orelse and i + 1 < len(stmts):
+            rest = _continue_to_else(stmts[i + 1:])
+            new = ast.If(test=st.test, body=(st.body[:-1] or [ast.Pass()]), orelse=rest)
+            ast.copy_location(new, st)
+            out.append(new)
+            return out
+        out.append(st)
+    return out
 
 
 def _is_matrix(v):
